@@ -310,3 +310,12 @@ def _foundations(rep: Report, prog: Program) -> None:
 
     memo_is_pure(rep, "R2.8", prog, ("redress.policy", "redress.budget", "redress.circuit", "redress.sleep"))
     rep.floor("R2.8", 1)
+
+    rep.rule("R2.10", "assigning policy.deadline on the sugar classes changes the deadline that is enforced: RetryPolicy / AsyncRetryPolicy.__setattr__ forward every attribute the retry component has (= C12 R12.5)")
+    from .c12 import sugar_setattr
+
+    sugar_setattr(rep, "R2.10", prog)
+    rep.floor("R2.10", 8)
+    from .common import forwarding_slice
+
+    forwarding_slice(rep, "R2.9", prog, ("deadline_s", "deadline"), "the deadline the caller configured is the deadline that is enforced: deadline_s reaches the retry component unchanged through every layer - decorator, sugar classes, from_config (= the deadline obligations of C12 R12.3)")
